@@ -48,6 +48,13 @@ func (self *Interpreter) statement(node ast.AnalyzedStatement) *value.Interrupt 
 		// ignore the expression value
 		_, i := self.expression(node)
 		return i
+	case ast.TriggerStatementKind:
+		// the host interface of the interpreter offers no way to register a trigger
+		return value.NewRuntimeErr(
+			"Trigger statements are not supported by the tree-walking interpreter",
+			value.HostErrorKind,
+			node.Span(),
+		)
 	default:
 		panic(fmt.Sprintf("A new statement kind (%v) was added without updating this code", node.Kind()))
 	}
